@@ -55,7 +55,7 @@ ROUTES = ['fresh', 'data_assigned', 'data_inplace', 'data_refilled', 'sampling_a
           # histories through a NON-default representation (sides), staleness and the scale_by_freq toggle; all end in the default layout
           'sides_first', 'sides_then_stale', 'sides_same_after_stale', 'stale_then_scale_toggle', 'datatype_flip', 'sides_call_call',
           'data_other_length', 'stale_then_reassign_all', 'sides_roundtrip', 'sides_chain', 'stale_sides_call', 'detrend_toggle',
-          'deepcopy_equal', 'deepcopy_independent', 'second_instance_after', 'second_instance_between', 'shallow_copy_mutated']
+          'deepcopy_equal', 'deepcopy_independent', 'second_instance_after', 'second_instance_between', 'sides_stale_sides', 'shallow_copy_mutated']
 NO_AXIS_ROUTES = {'shallow_copy_mutated'}       # a shallow copy shares the frequency-axis object with its original (by definition of a shallow copy)
 
 
@@ -201,6 +201,13 @@ def via(make, x, NFFT, sampling, scale_by_freq, route='fresh', prev=None):
         _ = q.psd
         p.scale_by_freq = scale_by_freq
         p.data = x
+    elif route == 'sides_stale_sides':
+        # computed, moved to a non-default representation, made stale (new data, nothing read), and moved back by a `sides` assignment:
+        # the assignment has to recompute first and convert the NEW estimate from the layout it is really in
+        p = make(other, NFFT, sampling, scale_by_freq); _ = p.psd
+        p.sides = _alt_sides(x, 1)
+        p.data = x
+        p.sides = 'default'
     elif route == 'second_instance_after':
         # ANOTHER object of the same class is constructed and evaluated (other data, other sampling) after this one was: nothing of it may
         # show through this one (state kept at class or module level)
@@ -237,7 +244,7 @@ def via(make, x, NFFT, sampling, scale_by_freq, route='fresh', prev=None):
 
 # class-specific settings: configuration key -> attribute of the object
 CFG_ATTRS = {'Periodogram': {'window': 'window'}, 'pcorrelogram': {'lag': 'lag', 'window': 'window'},
-             'pburg': {'order': 'ar_order'}, 'pyule': {'order': 'ar_order'}, 'pcovar': {'order': 'ar_order'}, 'pmodcovar': {'order': 'ar_order'},
+             'pburg': {'order': 'ar_order', 'criteria': 'criteria'}, 'pyule': {'order': 'ar_order'}, 'pcovar': {'order': 'ar_order'}, 'pmodcovar': {'order': 'ar_order'},
              'pminvar': {'order': 'ar_order'}, 'parma': {'P': 'ar_order', 'Q': 'ma_order', 'lag': 'lag'}, 'pma': {'Q': 'ma_order', 'M': 'ar_order'},
              'pmusic': {'IP': 'ar_order', 'NSIG': 'NSIG'}, 'pev': {'IP': 'ar_order', 'NSIG': 'NSIG'},
              'MultiTapering': {'NW': 'NW', 'k': 'k', 'method': 'method'}}
@@ -250,6 +257,8 @@ PLAIN_ATTRS = {'NSIG', 'NW', 'k', 'method', 'criteria', 'threshold'}
 
 
 def _alt_value(key, v):
+    if key == 'criteria':
+        return None if v else 'AIC'              # order selection switched off / on
     if isinstance(v, str):
         if key == 'window':
             return 'bartlett' if v != 'bartlett' else 'hann'
@@ -394,6 +403,8 @@ def class_route_stream(ctx, classes, prop_key, make_cfg=None, n_per_class=None):
             cfg = (make_cfg or default_cfg)(cls, N, rng, cplx)
             if cls == 'parma' and cplx:
                 cfg['Q'] = cfg['P']; cfg['lag'] = max(cfg['lag'], 2 * cfg['P'] + 2)      # equal orders: an assigned order may coincide with the OTHER order
+            if cls == 'pburg':
+                cfg.setdefault('criteria', None)     # (an explicit None: the criterion is one of the settings walked by the configuration routes)
             if cls == 'pburg' and not cplx:
                 cfg['criteria'] = str(rng.choice(['AIC', 'MDL', 'FPE', 'AICc', 'KIC', 'AKICc']))   # order selection keeps state tied to the record length
                 cfg['order'] = int(rng.integers(6, 9))
